@@ -318,16 +318,26 @@ fn xml_style_comments_parser(
         Box::new(move |node, source_code| {
             if node.kind() == comment_node_kind {
                 let comment = &source_code[node.byte_range()];
-                let open_idx = comment.find("<!--").expect("open comment tag is expected");
-                let close_idx = comment.rfind("-->").expect("close comment tag is expected");
+                // The delimiters may be missing or overlapping (e.g. "<!-->") when the source
+                // code does not parse.
+                let open_idx = comment.find("<!--");
+                let content_start = open_idx.map_or(0, |idx| idx + 4);
+                let close_idx = comment[content_start..]
+                    .rfind("-->")
+                    .map(|idx| idx + content_start);
+                let content_end = close_idx.unwrap_or(comment.len());
                 let mut result = String::with_capacity(comment.len());
-                result.push_str(&comment[..open_idx]);
-                // Replace "<!--" with spaces.
-                result.push_str("    ");
-                result.push_str(&comment[open_idx + 4..close_idx]);
-                // Replace "-->" with spaces.
-                result.push_str("   ");
-                result.push_str(&comment[close_idx + 3..]);
+                if let Some(open_idx) = open_idx {
+                    result.push_str(&comment[..open_idx]);
+                    // Replace "<!--" with spaces.
+                    result.push_str("    ");
+                }
+                result.push_str(&comment[content_start..content_end]);
+                if let Some(close_idx) = close_idx {
+                    // Replace "-->" with spaces.
+                    result.push_str("   ");
+                    result.push_str(&comment[close_idx + 3..]);
+                }
                 Some(result)
             } else {
                 None
@@ -338,13 +348,21 @@ fn xml_style_comments_parser(
 
 fn c_style_multiline_comment_processor(comment: &str) -> String {
     let mut result = String::with_capacity(comment.len());
-    let open_idx = comment.find("/*").expect("expected '/*' in a comment");
-    let close_idx = comment.rfind("*/").expect("expected '*/' in a comment");
-    // Add everything before the "/*"
-    result.push_str(&comment[..open_idx]);
-    // Replace "/*" with spaces.
-    result.push_str("  ");
-    let content = &comment[open_idx + 2..close_idx];
+    // The delimiters may be missing when the source code does not parse (e.g. an unterminated
+    // comment at the end of a file) or when the grammar supports other comment styles.
+    let open_idx = comment.find("/*");
+    let content_start = open_idx.map_or(0, |idx| idx + 2);
+    let close_idx = comment[content_start..]
+        .rfind("*/")
+        .map(|idx| idx + content_start);
+    let content_end = close_idx.unwrap_or(comment.len());
+    if let Some(open_idx) = open_idx {
+        // Add everything before the "/*"
+        result.push_str(&comment[..open_idx]);
+        // Replace "/*" with spaces.
+        result.push_str("  ");
+    }
+    let content = &comment[content_start..content_end];
     for line in content.split_inclusive('\n') {
         let mut decorative_star_found = false;
 
@@ -366,10 +384,12 @@ fn c_style_multiline_comment_processor(comment: &str) -> String {
             result.push_str(line);
         }
     }
-    // Replace "*/" with spaces.
-    result.push_str("  ");
-    // Add everything after the "*/".
-    result.push_str(&comment[close_idx + 2..]);
+    if let Some(close_idx) = close_idx {
+        // Replace "*/" with spaces.
+        result.push_str("  ");
+        // Add everything after the "*/".
+        result.push_str(&comment[close_idx + 2..]);
+    }
 
     result
 }
